@@ -13,7 +13,7 @@ static void s_dispose(struct sstr* s){ if (s->p != s->u.local) vm_delete(s->p); 
 void ir__ZNSt7__cxx1112basic_stringIcSt11char_traitsIcESaIcEE12_M_constructEmc(char* s_, uint64_t n, uint8_t c){
   struct sstr* s = S(s_);
   if (n > 15) { s->p = (char*)vm_new(n + 1); if (exc_pending) return; s->u.cap = n; }
-  if (n) memset(s->p, c, n);
+  if (n) vr_memset(s->p, c, n);
   s->len = n; s->p[n] = 0;
 }
 /* basic_string::_M_create(size_type& cap, size_type old) */
@@ -27,11 +27,11 @@ char* ir__ZNSt7__cxx1112basic_stringIcSt11char_traitsIcESaIcEE10_M_replaceEmmPKc
   struct sstr* s = S(s_);
   uint64_t tail = s->len - pos - len1, nl = s->len - len1 + len2;
   char* tmp = (char*)vm_new(nl + 1); if (exc_pending) return s_;
-  if (pos) memcpy(tmp, s->p, pos);
-  if (len2) memcpy(tmp + pos, str, len2);
-  if (tail) memcpy(tmp + pos + len2, s->p + pos + len1, tail);
+  if (pos) vr_memcpy(tmp, s->p, pos);
+  if (len2) vr_memcpy(tmp + pos, str, len2);
+  if (tail) vr_memcpy(tmp + pos + len2, s->p + pos + len1, tail);
   tmp[nl] = 0;
-  if (nl <= s_cap(s)) { memcpy(s->p, tmp, nl + 1); vm_delete(tmp); }
+  if (nl <= s_cap(s)) { vr_memcpy(s->p, tmp, nl + 1); vm_delete(tmp); }
   else { s_dispose(s); s->p = tmp; s->u.cap = nl; }
   s->len = nl;
   return s_;
@@ -52,16 +52,16 @@ void ir__ZNSt7__cxx1112basic_stringIcSt11char_traitsIcESaIcEE9_M_mutateEmmPKcm(c
   struct sstr* s = S(s_);
   uint64_t tail = s->len - pos - len1, nl = s->len - len1 + len2;
   char* tmp = (char*)vm_new(nl + 1); if (exc_pending) return;
-  if (pos) memcpy(tmp, s->p, pos);
-  if (str && len2) memcpy(tmp + pos, str, len2);
-  if (tail) memcpy(tmp + pos + len2, s->p + pos + len1, tail);
+  if (pos) vr_memcpy(tmp, s->p, pos);
+  if (str && len2) vr_memcpy(tmp + pos, str, len2);
+  if (tail) vr_memcpy(tmp + pos + len2, s->p + pos + len1, tail);
   s_dispose(s); s->p = tmp; s->u.cap = nl;
 }
 void ir__ZNSt7__cxx1112basic_stringIcSt11char_traitsIcESaIcEE7reserveEm(char* s_, uint64_t n){
   struct sstr* s = S(s_);
   if (n <= s_cap(s)) return;
   char* tmp = (char*)vm_new(n + 1); if (exc_pending) return;
-  memcpy(tmp, s->p, s->len + 1);
+  vr_memcpy(tmp, s->p, s->len + 1);
   s_dispose(s); s->p = tmp; s->u.cap = n;
 }
 /* exception constructors/destructors: the message is not modelled */
